@@ -62,7 +62,8 @@ def cases(tier, seed):
         n = int(1 + rng.random() ** 1.5 * ((400 if th else 120) - 1))
         cfgs.append({"cls": "Revolve", "n": n, "ram": rng.randint(1, 9),
                      "costs": random_costs(rng)})
-    out = [{"cfg": c, "passes": 1, "observe": None, "rseed": i}
+    out = [S.decorate({"cfg": c, "passes": 1, "observe": None, "rseed": i},
+                      i, seed)
            for i, c in enumerate(cfgs)]
     for n in range(1, (160 if th else 70) + 1):
         out.append({"kind": "helper", "n": n})
